@@ -144,9 +144,14 @@ func c20Dial(c *Ctx) {
 				d.F[i] = fold.Sym{Name: dst.Field(i).Name()}
 			}
 		}
-		if mm.Choose("timeout", 2) == 1 {
+		// zero means "no timeout"; any other value, also a negative one (a budget already used
+		// up), bounds the dial: the derived context is over at once
+		switch mm.Choose("timeout", 3) {
+		case 1:
 			d.F[iTimeout] = fold.Int{Lo: 1, Hi: bigLen(), Name: "Timeout"}
-		} else {
+		case 2:
+			d.F[iTimeout] = fold.Int{Lo: -bigLen(), Hi: -1, Name: "Timeout"}
+		default:
 			d.F[iTimeout] = fold.K(0)
 		}
 		var ctx fold.Val = fold.Iface{V: fold.Sym{Name: "global:caller-context", NonNil: true}}
@@ -162,7 +167,7 @@ func c20Dial(c *Ctx) {
 		}
 		e := c.errName(ret[3])
 		desc := "[" + p.ChoiceString() + "]"
-		timeout := p.Chose("timeout") == 1
+		timeout := p.Chose("timeout") >= 1
 		background := p.Chose("background") == 1
 		var seq []string
 		for _, ef := range p.Effects {
@@ -278,7 +283,7 @@ func c20Dial(c *Ctx) {
 
 func c20Watcher(c *Ctx) {
 	const rule = "C20.watcher-protocol"
-	c.R.Rule(rule, 3, "setupContextDeadliner: buffered reply channel, exactly one send per goroutine path, done closes/receives once and maps the error")
+	c.R.Rule(rule, 4, "setupContextDeadliner: buffered reply channel, exactly one send per goroutine path, done closes/receives once and maps the error")
 	f := c.fn(rule, ws, "setupContextDeadliner")
 	if f == nil {
 		return
@@ -315,6 +320,25 @@ func c20Watcher(c *Ctx) {
 		}
 	}
 	c.R.Check(ngo == 1, rule, rule+"/single-goroutine", c.P.FuncPos(f), "exactly one go statement in the three packages", fmt.Sprintf("%d go statements in the three packages: each new goroutine needs its own termination argument", ngo))
+	// the watcher runs on every path: a shortcut that answers for it ("the context is over already,
+	// put the error into the channel") skips the SetDeadline that interrupts the handshake I/O
+	{
+		gb := goInstr.Block()
+		var problems []string
+		for _, b := range f.Blocks {
+			for _, in := range b.Instrs {
+				switch x := in.(type) {
+				case *ssa.Return:
+					if !gb.Dominates(b) {
+						problems = append(problems, "a path through setupContextDeadliner returns at "+c.P.Pos(x.Pos())+" without starting the watcher: nobody interrupts the handshake I/O when the context ends")
+					}
+				case *ssa.Send:
+					problems = append(problems, "setupContextDeadliner itself sends on a channel at "+c.P.Pos(x.Pos())+": only the watcher, after it has interrupted the I/O, may publish the context's error")
+				}
+			}
+		}
+		c.verdict(rule, rule+"/watcher-always-started", c.P.Pos(goInstr.Pos()), uniq(problems), "every return is dominated by the go statement; no send outside the watcher")
+	}
 	size, _ := interrupt.Size.(*ssa.Const)
 	c.R.Check(size != nil && size.Int64() >= 1, rule, rule+"/reply-channel-buffered", c.P.Pos(interrupt.Pos()),
 		"reply channel has capacity >= 1: the goroutine's single send cannot block", "the reply channel is unbuffered: if done() is never reached the goroutine leaks, and the send can block")
